@@ -1,11 +1,24 @@
 import RawPanelVerif.Props.C15
 open RawPanelVerif.C15
 #print axioms svg_holds
+#print axioms svg_verdict_is_observation
+#print axioms svg_appended_holds
+#print axioms appended_wellformed
+#print axioms printed_wellformed_any_node
+#print axioms attr_names_distinct
 #print axioms bad_svg_gives_empty
+#print axioms no_root_gives_empty
+#print axioms parse_root_iff_valid
+#print axioms valid_base_gives_document
 #print axioms masked_contribute_nothing
 #print axioms ids_of_groups
 #print axioms one_main_shape_per_visible
 #print axioms main_shape_geometry
+#print axioms transform_present_iff
+#print axioms shape_rotation
 #print axioms label_count_le_two
 #print axioms label_count_pos
+#print axioms label_positions
+#print axioms label_spacing
+#print axioms text_transform
 #print axioms id_text_present
